@@ -43,7 +43,7 @@ def _patches(valid='all'):
     return make
 
 
-def body(ctx, conv, shape, bounds, layout, nan_cells=None, mesh_opts=None, mode='name'):
+def body(ctx, conv, shape, bounds, layout, nan_cells=None, mesh_opts=None, mode='name', coord_dtype=None):
     import xarray
     probe = {'cf1d': ('y', 'x'), 'cf2d': ('y', 'x'), 'shoc_simple': ('j', 'i'), 'shoc_standard': ('j_centre', 'i_centre'), 'ugrid': ('nface',)}[conv]
     gshape = shape if conv != 'ugrid' else (len(pipeline.builders.MESHES[shape][1]),)
@@ -69,7 +69,7 @@ def body(ctx, conv, shape, bounds, layout, nan_cells=None, mesh_opts=None, mode=
         other_grid = ('nnode',), (len(pipeline.builders.MESHES[shape][0]),)
     if other_grid is not None:
         data['elsewhere'] = (other_grid[0], numpy.arange(int(numpy.prod(other_grid[1])), dtype=float).reshape(other_grid[1]))
-    P = pipeline.build(ctx, conv, shape, bounds=bounds, nan_cells=nan_cells, data=data, mesh_opts=mesh_opts)
+    P = pipeline.build(ctx, conv, shape, bounds=bounds, nan_cells=nan_cells, data=data, mesh_opts=mesh_opts, coord_dtype=coord_dtype)
     cv, ds = P.convention, P.ds
     polygons = cv.polygons
     N = P.ncells
@@ -278,6 +278,11 @@ def cases(tier):
                 yield Case(f'{conv}:{shape[0]}x{shape[1]}:{bounds}:nan{nm}:{layout}:{mode}', body,
                            dict(conv=conv, shape=shape, bounds=bounds, layout=layout, nan_cells=nan_cells, mode=mode),
                            patches=_patches(), max_paths=5000, split=8)
+    # whole-degree axes stored in an integer type (see pipeline.int_coord_array: witness strength)
+    for mode in ('name', 'quiver'):
+        yield Case(f'cf1d:2x3:none:nan0:plain:{mode}:int32-coordinates', body,
+                   dict(conv='cf1d', shape=(2, 3), bounds='none', layout='plain', nan_cells=(), mode=mode, coord_dtype='int32'),
+                   patches=_patches(), max_paths=5000, split=8)
     for mesh in (['tqp'] if q else ['tqp', 'fan']):
         for mode in ('name', 'overrides', 'quiver'):
             yield Case(f'ugrid:{mesh}:{mode}', body, dict(conv='ugrid', shape=mesh, bounds='none', layout='plain',
